@@ -220,7 +220,9 @@ func (p *Parser) Parse() (plumbing.Hash, error) {
 
 	err := p.scanner.Error()
 	if err != nil {
-		if errors.Is(err, io.EOF) && p.scanner.objects == 0 {
+		// Only input that ended before its first byte is an empty packfile;
+		// a stream cut inside the header is truncated, like any other.
+		if errors.Is(err, io.EOF) && p.scanner.objects == 0 && p.scanner.offset == 0 {
 			return plumbing.ZeroHash, ErrEmptyPackfile
 		}
 		return plumbing.ZeroHash, err
